@@ -1,7 +1,7 @@
 (* Prop_C30.v — the property theorems of C30 and nothing else. *)
 From Coq Require Import List NArith ZArith Bool Permutation.
 Import ListNotations.
-From Verif Require Import Base.Val C18.Fs C24.Model_C24 C30.Model_C30 C30.Spec_C30 C30.Proofs_C30.
+From Verif Require Import Base.Val C18.Fs C24.Model_C24 C30.Model_C30 C30.Spec_C30 C30.Proofs_C30 C30.Persist.
 
 (* WorldFile.add (repaired): exactly name / name:slot is added, for ANY slot string; every other
    entry stays *)
@@ -23,6 +23,11 @@ Print Assumptions records_exact_pinned_refuted.
 Theorem flush_exact : flush_exact_stmt.
 Proof. exact flush_exact_proof. Qed.
 Print Assumptions flush_exact.
+
+(* what flush() wrote is read back by WorldFile as the same set: the update persists *)
+Theorem world_persist : persist_stmt.
+Proof. exact world_persist_proof. Qed.
+Print Assumptions world_persist.
 
 (* every crash prefix of flush(): the world file is the old one or the complete new one *)
 Theorem flush_atomic : wflush_atomic_stmt.
